@@ -43,9 +43,23 @@ def run(ctx):
     def viol(what, **kw):
         violations.append(dict(kind="counterexample", stage="search", what=what, **kw))
 
+    for k in known:
+        if k.get("kind") != "finding":
+            continue
+        cls = getattr(vs, k["class"])
+        for w in k.get("witnesses", []):
+            try:
+                a, b = cls(w["a"]), cls(w["b"])
+                if a == b and hash(a) != hash(b) and k["text"] not in known_seen:
+                    known_seen.append(k["text"])
+            except Exception:
+                pass
+        if k["text"] not in known_seen:
+            ctx.say("note: listed finding no longer reproduces on its witness:", k["id"])
+
     def known_for(name, a, b):
         for k in known:
-            if k.get("class") == name and k.get("kind") == "finding":
+            if k.get("class") == name and k.get("kind") == "finding" and k["text"] in known_seen:
                 pred = k.get("predicate")
                 if pred == "maven_list_vs_missing":
                     # the equality comes from a sub-list whose first item is empty facing a missing item
@@ -103,8 +117,6 @@ def run(ctx):
             if not ok:
                 kf = known_for(name, a, b)
                 if kf:
-                    if kf["text"] not in known_seen:
-                        known_seen.append(kf["text"])
                     continue
                 nbad += 1
                 if nbad <= 3:
